@@ -385,10 +385,36 @@ class Matcher:
         raise OutsideDomain(dt)
 
 
-def decide(S, events, want_state=False):
-    """Run the reference model over a complete text given as an event list."""
+def import_component(S, imported, name, packages):
+    """Effect of '%import name' on the schema model of THIS load.  packages maps an
+    importable package name to the tuple of types its component defines, or to
+    None for names that are not packages providing a component."""
+    if packages is None or packages.get(name) is None:
+        raise _Reject("import-refused-not-a-component-package")
+    if name in imported:
+        return S                      # idempotent within a load
+    imported.add(name)
+    tt = M.type_table(S)
+    new = []
+    for t in packages[name]:
+        if t.name in tt or any(t.name == n.name for n in new):
+            raise _Reject("import-redefines-type")
+        if isinstance(t, M.SType):
+            if t.implements and not isinstance(tt.get(t.implements), M.AType):
+                raise _Reject("import-implements-unknown-abstract-type")
+            if t.extends and not (isinstance(tt.get(t.extends), M.SType) or any(t.extends == n.name for n in new)):
+                raise _Reject("import-extends-unknown-type")
+        new.append(t)
+    from dataclasses import replace
+    return replace(S, types=tuple(S.types) + tuple(new))
+
+
+def decide(S, events, want_state=False, packages=None, preimported=()):
+    """Run the reference model over a complete text given as an event list.
+    `preimported`: packages the schema itself imports (their types are already in S)."""
     d = Decision()
     m = Matcher(S)
+    imported = set(preimported)
     stack = [Cont(S, None, None)]
     slots = []            # slot index in the parent for each open section
     try:
@@ -400,7 +426,7 @@ def decide(S, events, want_state=False):
                 t = ev[1].lower()
                 n = ev[2].lower() if ev[2] else None
                 slot = m.find_slot(c, t, n)
-                child = Cont(S, t, n)
+                child = Cont(m.S, t, n)
                 stack.append(child)
                 slots.append(slot)
                 if ev[0] == "e":
@@ -409,10 +435,16 @@ def decide(S, events, want_state=False):
                 if len(stack) == 1:
                     raise OutsideDomain("closer with nothing open")
                 _close(m, stack, slots)
+            elif ev[0] == "i":
+                S = import_component(S, imported, ev[1], packages)
+                m.S = S
+                m.tt = M.type_table(S)
+                for c in stack:
+                    c.S = S
             else:
                 raise OutsideDomain(ev)
         if want_state:
-            d.state = tuple(c.state() for c in stack)
+            d.state = tuple(c.state() for c in stack) + (tuple(sorted(imported)),)
             d.open = tuple(c.tname for c in stack[1:])
         while len(stack) > 1:
             _close(m, stack, slots)
